@@ -7,7 +7,7 @@ from . import build
 
 FAMS = ["fam_core", "fam_exec", "fam_when", "fam_wait", "fam_shared", "fam_wg", "fam_cmutex", "fam_coro"]
 TARGETS = [(f, v) for f in FAMS for v in ("fib-asan", "thr-tsan", "thr-asan")] + [("fam_stdlocks", "fib-asan"), ("fam_atomdiff", "fib-asan"), ("fam_atomdiff", "thr-asan"),
-                                                                                   ("fam_cmutex", "fib-asan-nost"), ("fam_coro", "fib-asan-nost")]
+                                                                                   ("fam_repro", "fib-asan"), ("fam_cmutex", "fib-asan-nost"), ("fam_coro", "fib-asan-nost")]
 
 
 def main():
